@@ -329,6 +329,29 @@ fn gen_profile(profile: &str, seed: u64, n: usize, thorough: bool, out: &mut Out
                 }
             }
         }
+        "updatecorner" => {
+            // the excluded points of the C06 theorems, run on the real code
+            let mk = |content: &str, sql: &str, types: &str, row: &[&str], tag: &str| treeop::UpdateCase {
+                sep: " ".into(),
+                tree: treeop::Tree { files: vec![("root.slt".into(), content.to_string())], root: "root.slt".into() },
+                db: mock::DbScript {
+                    engine: "mock".into(),
+                    rules: vec![(sql.to_string(), vec![mock::Ans::Rows { types: types.into(), rows: vec![row.iter().map(|s| s.to_string()).collect()] }])],
+                    ..Default::default()
+                },
+                tag: tag.into(),
+                representable: true,
+                ..Default::default()
+            };
+            out.update(&mk("query TT\nselect x\n----\nwrong\n", "select x", "TT", &["a\u{a0}", "b"], "corner value with trailing NBSP"));
+            out.update(&mk("query TT\nselect x\n----\nwrong\n", "select x", "TT", &["\u{b}a", "b"], "corner value with leading VT"));
+            out.update(&mk("query error retry 2 backoff 1s\nselect y\n", "select y", "", &["1"], "corner query error + retry + engine without column types"));
+            out.update(&mk("query error\nselect y\n", "select y", "", &["1"], "corner query error + engine without column types"));
+            // an empty value is outside the property's own guard (non-empty values): compared, not judged
+            let mut c = mk("query TT\nselect x\n----\nwrong\n", "select x", "TT", &["", "b"], "corner empty value");
+            c.representable = false;
+            out.update(&c);
+        }
         "updatesmall" => {
             for t in treegen::small_files() {
                 let c = treeop::UpdateCase {
